@@ -11,6 +11,11 @@ use std::sync::Arc;
 
 /// replies that the configured mechanism should accept / reject
 pub fn reply_menu(cfg: &Cfg) -> Vec<Reply> {
+    let fp = if cfg.fingerprint { super::server::RFp::Valid } else { super::server::RFp::Absent };
+    reply_menu_plain(cfg).into_iter().map(|r| r.with_fp(fp)).collect()
+}
+
+fn reply_menu_plain(cfg: &Cfg) -> Vec<Reply> {
     let ok = Reply::plain(RClass::Success);
     let err = Reply::plain(RClass::Error(400));
     match cfg.mech {
@@ -18,11 +23,11 @@ pub fn reply_menu(cfg: &Cfg) -> Vec<Reply> {
         Mech::ShortTerm(Some(true)) => vec![ok.with_mac(RMac::Sha), err.with_mac(RMac::Sha), ok.with_mac(RMac::BadSha), ok],
         Mech::ShortTerm(_) => vec![ok.with_mac(RMac::Mi), err.with_mac(RMac::Mi), ok.with_mac(RMac::BadMi), ok],
         Mech::LongTerm => vec![
-            Reply::plain(RClass::Error(401)).with_chal(Chal { realm: true, nonce: NonceKind::Plain(1), pas: PasKind::Absent, realm_v: 0 }),
+            Reply::plain(RClass::Error(401)).with_chal(Chal { realm: true, nonce: NonceKind::Plain(1), pas: PasKind::Absent, realm_v: 0, order: 0 }),
             ok.with_mac(RMac::Mi),
             ok,
             err.with_mac(RMac::Mi),
-            Reply::plain(RClass::Error(438)).with_chal(Chal { realm: false, nonce: NonceKind::Plain(2), pas: PasKind::Absent, realm_v: 0 }).with_mac(RMac::Mi),
+            Reply::plain(RClass::Error(438)).with_chal(Chal { realm: false, nonce: NonceKind::Plain(2), pas: PasKind::Absent, realm_v: 0, order: 0 }).with_mac(RMac::Mi),
         ],
     }
 }
@@ -153,6 +158,11 @@ impl Monitor for Mon {
         if !w.reqs.is_empty() {
             v.push(Event::Deliver { to: Target::Unknown, reply: menu[0] });
         }
+        // non-responses carrying an outstanding id, and a send that fails for lack of buffer space
+        v.extend(explore::id_tie_events(w));
+        if w.reqs.len() < self.max_sends && !w.just_advanced {
+            v.push(Event::SendTiny { app: 0, cap: 16 });
+        }
         v
     }
 }
@@ -167,8 +177,15 @@ pub fn configs(thorough: bool) -> Vec<Cfg> {
     };
     for t in transports {
         for m in &mechs {
-            v.push(Cfg { transport: t, mech: *m, fingerprint: false, max_tx: 10 });
+            v.push(Cfg { transport: t, mech: *m, fingerprint: false, max_tx: 10, cred: 0, method: 1 });
         }
+    }
+    // methods whose bits reach into every part of the interleaved type field (the class bits sit between method bits)
+    v.push(Cfg { transport: transports[0], mech: Mech::None, fingerprint: false, max_tx: 10, cred: 0, method: 0x080 });
+    v.push(Cfg { transport: transports[1], mech: Mech::ShortTerm(None), fingerprint: true, max_tx: 10, cred: 0, method: 0xFFF });
+    if thorough {
+        v.push(Cfg { transport: transports[0], mech: Mech::LongTerm, fingerprint: false, max_tx: 10, cred: 0, method: 0x100 });
+        v.push(Cfg { transport: transports[1], mech: Mech::None, fingerprint: false, max_tx: 10, cred: 0, method: 0xA5A });
     }
     v
 }
@@ -193,7 +210,7 @@ pub fn run(ctx: &RunCtx) -> i32 {
         })
         .collect();
     // three concurrent requests, coarse time, shallower
-    let cfg3 = Cfg { transport: Transport::Unreliable { rto_ms: 100, gran_ms: 1, rm: 2, rc: 2 }, mech: Mech::None, fingerprint: false, max_tx: 10 };
+    let cfg3 = Cfg { transport: Transport::Unreliable { rto_ms: 100, gran_ms: 1, rm: 2, rc: 2 }, mech: Mech::None, fingerprint: false, max_tx: 10, cred: 0, method: 1 };
     {
         let mut r = Report::new();
         let st = bfs(&cfg3, &apps, &Mon::new(3, TimeDetail::Coarse), if thorough { 9 } else { 7 }, 1_500_000, &mut r);
@@ -205,7 +222,7 @@ pub fn run(ctx: &RunCtx) -> i32 {
     {
         let mut r = Report::new();
         for mech in [Mech::None, Mech::ShortTerm(Some(false))] {
-            let cfg = Cfg { transport: Transport::Unreliable { rto_ms: 500, gran_ms: 1, rm: 16, rc: 7 }, mech, fingerprint: false, max_tx: 10 };
+            let cfg = Cfg { transport: Transport::Unreliable { rto_ms: 500, gran_ms: 1, rm: 16, rc: 7 }, mech, fingerprint: false, max_tx: 10, cred: 0, method: 1 };
             let n = super::devrun::explore(&cfg, &apps, &Mon::new(3, TimeDetail::Coarse), if thorough { 4 } else { 3 }, &mut r);
             r.add_extra("deviation_bounded_executions", n);
         }
@@ -219,7 +236,7 @@ pub fn run(ctx: &RunCtx) -> i32 {
         rep,
         Finish {
             level: "model_checking",
-            rule: format!("breadth-first exploration of the real client to depth {} over {{Send (<=2 concurrent, <=3 with coarse time), Timer, AdvanceTo(region representatives of every schedule point / deadline: -1 ms, exact, +1 ms, midpoint, beyond), Deliver(each awaiting or the last finished request x reply menu of the mechanism incl. auth-failing and 401/438), Deliver(unknown id)}} for {} transport x mechanism configurations; plus deviation-bounded run-to-completion (<= {} deviations: lost / duplicated / late / after-failure / mis-authenticated reply, early / late / very late timer, extra request) on the default 500 ms / Rc 7 / Rm 16 configuration. States deduplicated on the full client snapshot + monitor state; every transition executed on the implementation", depth, cfgs.len(), if thorough { 4 } else { 3 }),
+            rule: format!("breadth-first exploration of the real client to depth {} over {{Send (<=2 concurrent, <=3 with coarse time), Timer, AdvanceTo(region representatives of every schedule point / deadline: -1 ms, exact, +1 ms, midpoint, beyond), Deliver(each awaiting or the last finished request x reply menu of the mechanism incl. auth-failing and 401/438), Deliver(unknown id), Deliver(an indication / a request carrying the id of an awaiting request), a send into a 16-byte buffer}} for {} transport x mechanism configurations (two of them - thorough four - with request methods 0x080 / 0xFFF / 0x100 / 0xA5A instead of Binding); plus deviation-bounded run-to-completion (<= {} deviations: lost / duplicated / late / after-failure / mis-authenticated reply, early / late / very late timer, extra request) on the default 500 ms / Rc 7 / Rm 16 configuration. States deduplicated on the full client snapshot + monitor state; every transition executed on the implementation", depth, cfgs.len(), if thorough { 4 } else { 3 }),
             assumptions: vec!["time is explored through region representatives (the client only compares and subtracts instants)".into(), "dedup key is a 128-bit hash of the canonical state rendering".into()],
             required_symbols: vec!["Send", "Timer", "Advance", "Deliver", "bfs-configs", "deviation-runs"],
             min_outcomes: 8,
